@@ -34,6 +34,8 @@ mod checkout;
 mod idle;
 mod key;
 pub(super) mod service;
+#[cfg(feature = "verif-hooks")]
+pub mod verif;
 mod weakopt;
 
 pub(super) use self::checkout::Checkout;
